@@ -150,18 +150,30 @@ let gen_mode cfgs =
 
 (* ---- type names: one type description per line -> the tokens of its recorded name, without blanks *)
 let prims = [| "u8"; "u16"; "u32"; "u64"; "u128"; "usize"; "i8"; "i16"; "i32"; "i64"; "i128"; "isize"; "f32"; "f64"; "bool"; "char" |]
-let user_name = function
-  | 1 -> "vharness" | 2 -> "vt" | 3 -> "inner" | 10 -> "Nc" | 11 -> "Pz" | 12 -> "Wrap" | 13 -> "Deep" | 14 -> "Pair"
-  | n -> "user" ^ string_of_int n
+(* user identifiers are numbered as they are met *)
+let user_tbl : (string, int) Hashtbl.t = Hashtbl.create 16
+let user_rev : (int, string) Hashtbl.t = Hashtbl.create 16
+let ident_of_string (s : string) : ident =
+  match s with
+  | "alloc" -> Ialloc | "boxed" -> Iboxed | "Box" -> IBox | "string" -> Istring | "String" -> IString
+  | "vec" -> Ivec | "Vec" -> IVec | "core" -> Icore | "option" -> Ioption | "Option" -> IOption
+  | "result" -> Iresult | "Result" -> IResult | "str" -> Istr
+  | _ ->
+      let n = match Hashtbl.find_opt user_tbl s with
+        | Some n -> n
+        | None -> let n = Hashtbl.length user_tbl in Hashtbl.add user_tbl s n; Hashtbl.add user_rev n s; n in
+      IUser (nat_of_int n)
 let ident_s = function
   | Ialloc -> "alloc" | Iboxed -> "boxed" | IBox -> "Box" | Istring -> "string" | IString -> "String"
   | Ivec -> "vec" | IVec -> "Vec" | Icore -> "core" | Ioption -> "option" | IOption -> "Option"
   | Iresult -> "result" | IResult -> "Result" | Istr -> "str"
-  | IPrim p -> prims.(int_of_nat p) | IUser n -> user_name (int_of_nat n)
+  | IPrim p -> prims.(int_of_nat p)
+  | IUser n -> (match Hashtbl.find_opt user_rev (int_of_nat n) with Some s -> s | None -> "user" ^ string_of_int (int_of_nat n))
 let token_s = function
   | KId i -> ident_s i | KLt -> "<" | KGt -> ">" | KComma -> "," | KColon2 -> "::" | KLParen -> "(" | KRParen -> ")"
   | KLBrack -> "[" | KRBrack -> "]" | KSemi -> ";" | KNum n -> string_of_int (int_of_nat n)
 
+(* P<n> | X | S | B(t) | V(t) | O(t) | L(t) | R(t,t) | A(t,n) | T(t,..) | U(seg.seg;Name;t,..) with identifiers by name *)
 let parse_ty (s : string) : rty =
   let pos = ref 0 in
   let peek () = if !pos < String.length s then s.[!pos] else '\000' in
@@ -170,6 +182,10 @@ let parse_ty (s : string) : rty =
     let st = !pos in
     while (match peek () with '0'..'9' -> true | _ -> false) do incr pos done;
     int_of_string (String.sub s st (!pos - st)) in
+  let word () =
+    let st = !pos in
+    while (match peek () with 'a'..'z' | 'A'..'Z' | '0'..'9' | '_' -> true | _ -> false) do incr pos done;
+    String.sub s st (!pos - st) in
   let rec ty () =
     let c = peek () in incr pos;
     match c with
@@ -184,11 +200,11 @@ let parse_ty (s : string) : rty =
     | 'A' -> eat '('; let a = ty () in eat ','; let n = number () in eat ')'; TArray (a, nat_of_int n)
     | 'T' -> eat '('; let l = tys ')' in eat ')'; TTuple l
     | 'U' -> eat '(';
-        let path = ref [number ()] in
-        while peek () = '.' do incr pos; path := number () :: !path done;
-        eat ';'; let name = number () in eat ';';
+        let path = ref [word ()] in
+        while peek () = '.' do incr pos; path := word () :: !path done;
+        eat ';'; let name = word () in eat ';';
         let l = tys ')' in eat ')';
-        TUser (List.rev_map nat_of_int !path, nat_of_int name, l)
+        TUser (List.rev_map ident_of_string !path, ident_of_string name, l)
     | _ -> failwith ("type description: " ^ s)
   and tys close =
     if peek () = close then [] else begin
